@@ -188,4 +188,25 @@ def real_opts(rng):
         imf_opts['max_iters'] = rng.choice([1, 2, 3, 5, 10])
     envelope_opts = dict(interp_method=rng.choice(['splrep', 'pchip', 'mono_pchip']))
     extrema_opts = dict(pad_width=rng.choice([1, 2, 2, 3, 4]))
+    if rng.random() < 0.25:
+        # custom np.pad settings for the extrema magnitudes (never a custom location mode: reflect_type='even' does not
+        # terminate on the clean library)
+        extrema_opts['mag_pad_opts'] = rng.choice([{'mode': 'reflect'}, {'mode': 'symmetric'}, {'mode': 'mean', 'stat_length': 2},
+                                                   {'mode': 'mean', 'stat_length': 3}])
     return imf_opts, envelope_opts, extrema_opts
+
+
+DTYPES = [None, None, None, 'int64', 'int32', 'int16', 'float32']
+
+
+def as_dtype(x, dt):
+    """the signal as the implementation receives it (raw ADC-style integer counts / single precision) and the float64
+    values it denotes; None = float64 as is"""
+    x = np.asarray(x, dtype=float)
+    if dt is None:
+        return x, x
+    if dt.startswith('int'):
+        xi = np.round(x * 100).astype(dt)
+        return xi, xi.astype(float)
+    xf = x.astype(dt)
+    return xf, xf.astype(float)
